@@ -30,7 +30,7 @@ def run(ctx):
         consts.update({"CLS": '"%s"' % cls, "WSET": "{0,1,2}", "ParamSets": "<- MC_ParamSets", "Passwords": "<- MC_Passwords",
                        "IdPairs": "<- MC_IdPairs", "ClassSet": "<- MC_ClassSet", "MaxInst": "3", "MaxRestore": "2",
                        "ScalarChoices": "<- MC_ScalarChoices", "Attacker": "<- MC_Attacker"})
-        ctx.mc("MC_Persist", cfg(spec="PersistSpec", constants=consts, invariants=["RestoreEquivalent", "SerializeStable", "SameOutcomes"]),
+        ctx.mc("MC_Persist", cfg(view="ViewNoLast", spec="PersistSpec", constants=consts, invariants=["RestoreEquivalent", "SerializeStable", "SameOutcomes"]),
                label="MC_Persist[%s,%s] (encode/decode of the state format)" % (g, cls))
     uni = Universe()
     mp = Mapper(uni)
